@@ -16,7 +16,7 @@
    C01-F1's input class; C01_cb_oklike_refuted shows the full statement fails without it. *)
 From Coq Require Import List Bool Ascii Arith NArith.
 From TxVerif Require Import Lib.Bytes Spec.Ctl Model.CtlTypes Model.Framing Model.CtlProto
-  Proofs.FramingProofs Proofs.CtlParse Proofs.CtlText Proofs.CtlItem Proofs.CtlRest Proofs.CtlFifo.
+  Proofs.FramingProofs Proofs.CtlParse Proofs.CtlText Proofs.CtlItem Proofs.CtlRest Proofs.CtlFifo Proofs.CtlSegment.
 Import ListNotations.
 
 Theorem C01_framing_segmentation_independent : forall cs1 cs2,
@@ -27,6 +27,19 @@ Print Assumptions C01_framing_segmentation_independent.
 Theorem C01_framing_is_split : forall chunks, feed_all [] chunks = pysplit (concat chunks).
 Proof. exact feed_all_concat. Qed.
 Print Assumptions C01_framing_is_split.
+
+(* the same at protocol level: for every state of the FSM / queue / listeners and every reachable
+   receive buffer, receiving a ++ b at once has the same outcome (observations, success, state) as
+   receiving a and then b, for every split point incl. inside CR LF -- provided no line exceeds
+   MAX_LENGTH (the hypotheses on l1 l2 b1 b2; otherwise the connection is dropped) *)
+Theorem C01_protocol_segmentation_independent : forall lbehs s a b l1 b1 l2 b2,
+  stable (rev (p_buf s)) -> p_disc s = false ->
+  feed (p_buf s) a = (l1, b1) -> feed b1 b = (l2, b2) ->
+  forallb line_fits (l1 ++ l2) = true -> line_fits b1 = true -> line_fits b2 = true ->
+  same_outcome (data_received lbehs s (a ++ b))
+               (andthen (data_received lbehs s a) (fun s1 => data_received lbehs s1 b)).
+Proof. exact data_received_split. Qed.
+Print Assumptions C01_protocol_segmentation_independent.
 
 Theorem C01_reply_ok_resolves_inflight : forall lbehs s i cm,
   at_rest s -> p_inflight s = Some cm -> ccb (cl cm) = false ->
